@@ -25,6 +25,7 @@ Mult(s, key) == Cardinality({i \in DOMAIN s : s[i] = key})
 RangeOf(s) == {s[i] : i \in DOMAIN s}
 Registered(c, list) == [key \in (DOMAIN c) \cup RangeOf(list) |-> IF key \in DOMAIN c THEN c[key] ELSE 0]
 Get(f, k) == IF k \in DOMAIN f THEN f[k] ELSE 0
+IsDupFree(q) == \A i, j \in DOMAIN q : i # j => q[i] # q[j]
 
 Init == l = 1 /\ cnt = <<>> /\ pk = <<>> /\ lastret = <<>>
 Begin == /\ l <= Len(Trace) /\ Trace[l].e = "begin"
@@ -33,15 +34,19 @@ Call == /\ l <= Len(Trace) /\ Trace[l].e = "call"
         /\ LET ev == Trace[l]
                c0 == Registered(cnt, ev.list)
                s  == Selected(ev.list, c0, ev.cap)
-               c1 == [key \in DOMAIN c0 |-> c0[key] + Mult(s, key)]
+               c1 == [key \in DOMAIN c0 |-> c0[key] + Mult(ev.ret, key)]
                old == IF ev.client \in DOMAIN pk THEN pk[ev.client] ELSE <<>>
-               new == [key \in (DOMAIN old) \cup RangeOf(ev.list) |-> Get(old, key) + Mult(s, key)]
-           IN /\ ev.ret = s                                            \* returned = least-evaluated-first prefix
+               new == [key \in (DOMAIN old) \cup RangeOf(ev.list) |-> Get(old, key) + Mult(ev.ret, key)]
+           IN /\ RangeOf(ev.ret) \subseteq RangeOf(ev.list)                    \* every returned combination is a candidate
+              /\ Len(ev.ret) = Len(s)                                        \* exactly min(cap, #candidates)
+              /\ (IsDupFree(ev.list) =>                                      \* ... distinct, taken from the least-evaluated ones
+                    /\ IsDupFree(ev.ret)                                     \*     (ties may be broken in any way)
+                    /\ \A a \in RangeOf(ev.ret) : \A b \in RangeOf(ev.list) \ RangeOf(ev.ret) : c0[a] <= c0[b])
               /\ DOMAIN ev.counts = DOMAIN c1                          \* the whole counter was logged
               /\ \A key \in DOMAIN c1 : ev.counts[key] = c1[key]       \* reported counts = model counts
               /\ cnt' = c1
               /\ pk' = [cl \in (DOMAIN pk) \cup {ev.client} |-> IF cl = ev.client THEN new ELSE pk[cl]]
-              /\ lastret' = IF ev.client = "mixed_rank_graph" THEN s ELSE lastret
+              /\ lastret' = IF ev.client = "mixed_rank_graph" THEN ev.ret ELSE lastret
         /\ l' = l + 1
 \* {"e":"evaluated","keys":[candidate keys of the pairs that appear in the batch's rows]}: the pairs evaluated in a
 \* batch are exactly the candidates the rank-pair sampler returned for it (selected = evaluated = counted)
